@@ -25,28 +25,23 @@ def ds(*ks):
 
 COMMON = dict(stubs=FS, models=MODEL, unwind=26, cap=600, mem=12)
 
-# tiling: every view at its structure start == reference value, map_offset+map_len == next start, last one ends at map.len().
-# reference value = the serialized value; '_ld' instances: what load() returns from the same bytes
+# tiling: every view at its structure start == what load() returns from the same bytes, map_offset+map_len == next start,
+# the last view ends at map.len()
 TILE3 = [(('v3', 'b9', 'r0'), 'quick'), (('r65', 'i3', 'v0'), 'quick'), (('p2', 's9', 'on'), 'quick'), (('o2', 'i64', 'b0'), 'quick'),
          (('i0', 'on', 'i0'), 'quick'), (('s3', 'ri128', 's0'), 'quick'), (('b8', 'o0', 'p0'), 'quick'),
          (('v1', 'p3', 'o0'), 'thorough'), (('i1', 'r3', 'i0'), 'thorough'), (('b3', 'v3', 'b0'), 'thorough'), (('on', 'on', 'v0'), 'thorough'),
          (('r0', 'r0', 'r0'), 'thorough'), (('i64', 'i64', 'i0'), 'thorough'), (('p3', 'p3', 'p0'), 'thorough'), (('s9', 'b9', 's0'), 'thorough'),
-         (('ri65', 'v0', 'b0'), 'thorough')]
+         (('ri65', 'v0', 'b0'), 'thorough'), (('s3', 'r128', 's0'), 'thorough')]
 for ks, tier in TILE3:
-    inst(P, 'c13_tile_%s' % '_'.join(ks), 'c13::tile3::<%s>(false)' % ty(*ks), tier=tier, desc='file = %s: views == serialized values, views tile the file' % ds(*ks),
+    inst(P, 'c13_tile_%s' % '_'.join(ks), 'c13::tile3::<%s>(true)' % ty(*ks), tier=tier, desc='file = %s: views == load() of the same bytes, views tile the file' % ds(*ks),
          shape={'file': [T[k][1] for k in ks]}, **COMMON)
-TILE2 = [(('i3', 'r0'), 'quick'), (('o2', 'on'), 'quick'), (('r65', 'v0'), 'thorough'), (('b9', 's0'), 'thorough'), (('p2', 'i0'), 'thorough')]
+TILE2 = [(('i3', 'r0'), 'quick'), (('o2', 'on'), 'quick'), (('r65', 'o2'), 'thorough'), (('r65', 'v0'), 'thorough'), (('b9', 's0'), 'thorough'), (('p2', 'i0'), 'thorough'), (('i64', 'on'), 'thorough')]
 for ks, tier in TILE2:
-    inst(P, 'c13_tile_%s' % '_'.join(ks), 'c13::tile2::<%s>(false)' % ty(*ks), tier=tier, desc='file = %s: views == serialized values, views tile the file' % ds(*ks),
+    inst(P, 'c13_tile_%s' % '_'.join(ks), 'c13::tile2::<%s>(true)' % ty(*ks), tier=tier, desc='file = %s: views == load() of the same bytes, views tile the file' % ds(*ks),
          shape={'file': [T[k][1] for k in ks]}, **COMMON)
-LOAD3 = [(('v3', 'b9', 'r0'), 'quick'), (('p2', 's9', 'on'), 'quick'), (('r65', 'i3', 'v0'), 'thorough'), (('o2', 'i64', 'b0'), 'thorough'), (('s3', 'r128', 's0'), 'thorough')]
-for ks, tier in LOAD3:
-    inst(P, 'c13_tile_ld_%s' % '_'.join(ks), 'c13::tile3::<%s>(true)' % ty(*ks), tier=tier, desc='file = %s: views == load() of the same bytes, views tile the file' % ds(*ks),
-         shape={'file': [T[k][1] for k in ks], 'load': True}, **COMMON)
-LOAD2 = [(('i3', 'r0'), 'quick'), (('r65', 'o2'), 'quick'), (('i64', 'on'), 'thorough')]
-for ks, tier in LOAD2:
-    inst(P, 'c13_tile_ld_%s' % '_'.join(ks), 'c13::tile2::<%s>(true)' % ty(*ks), tier=tier, desc='file = %s: views == load() of the same bytes, views tile the file' % ds(*ks),
-         shape={'file': [T[k][1] for k in ks], 'load': True}, **COMMON)
+# the same against the values that were serialized (no load)
+inst(P, 'c13_tile_nl_r65_i3_v0', 'c13::tile3::<%s>(false)' % ty('r65', 'i3', 'v0'), tier='thorough', desc='file = %s: views == serialized values' % ds('r65', 'i3', 'v0'),
+     shape={'file': [T[k][1] for k in ('r65', 'i3', 'v0')], 'load': False}, **COMMON)
 
 # every offset >= file length (all usize) is refused, for each view type
 for k, tier in (('v3', 'quick'), ('p2', 'quick'), ('b9', 'quick'), ('s3', 'quick'), ('o2', 'quick'), ('on', 'thorough'), ('r65', 'quick'), ('i3', 'quick'), ('i0', 'thorough')):
@@ -62,7 +57,7 @@ for ks, tier in TRUNC:
          shape={'file': [T[k][1] for k in ks]}, **COMMON)
 
 extra(P, assumptions=[
-    'views are compared with the values that were serialized; the *_ld instances compare with what load() returns from the same bytes instead (C06 proves load(serialize(x)) == x for the same types and shapes)',
+    'reference for a view = what Serialize::load returns from the bytes at the same offset of the same file image',
     'file content = bytes produced by the real Serialize::serialize of 2-3 values of concrete shape and symbolic content (<= 24 words), handed to the OS model as the file; MemoryMap::new runs on the std::fs stubs and models/mmap_model.c exactly as in C18 (file always openable, mapping never refused here)',
     'the mapping object ends at the file length rounded up to whole words (not at the page end): any access past the file through a view is reported',
     'String content restricted to ASCII (stub set utf8 replaces std::str::from_utf8 / String::from_utf8)',
